@@ -313,11 +313,11 @@ Proof.
   destruct (if longer p2 1 && hd_is p2 94 then (true, tl p2) else (false, p2)) as [ngp p3].
   destruct (scan_word is_word_char p3) as [nm p4]. cbn [negb andb pbind].
   rewrite <- (oeqv_useRE2 _ _ Hab).
+  destruct (longer p4 1 && hd_is p4 58 && nth_is 1 p4 93); [|apply cs_generic_agr].
+  destruct (useRE2 a); [|apply cs_generic_agr].
   intros syn qf H.
   match type of H with pbind ?x _ = _ => destruct x as [itsF|e q| | |] end; cbn [pbind] in H; try discriminate.
-  destruct (longer p4 1 && hd_is p4 58 && nth_is 1 p4 93).
-  - destruct (useRE2 a); [eapply cs_next_agr; exact H | eapply cs_generic_agr; exact H].
-  - eapply cs_generic_agr; exact H.
+  eapply cs_next_agr. exact H.
 Qed.
 
 Lemma cs_body_agr ng chprev inrange first sub sub' p its its' :
